@@ -267,6 +267,10 @@ AltSteps(k, c, s) ==
   CASE s.t = "tampered"       -> << [op |-> "tamper", region |-> s.region, idx |-> s.idx, mask |-> s.mask] >>
     [] s.t = "wrongPassword"  -> << [op |-> "wrongpw", pws |-> HexSeq(WrongPws(Pw(c.pwc))), sweepbase |-> "7a", sweep |-> c.sweep] >>
     [] s.t = "wrongUnwrapKey" -> << [op |-> "wrongkey", d |-> Hx!FromBytes(Scalar("sm2", OtherCls(c.papi)))] >>
+    [] s.t = "rightAfterWrongPassword"  -> << [op |-> "wrongpw", pws |-> HexSeq(WrongPws(Pw(c.pwc))), sweepbase |-> "7a", sweep |-> 0],
+                                              [op |-> "parse", allowed |-> <<"Err">>], [op |-> "rightagain"] >>
+    [] s.t = "rightAfterWrongUnwrapKey" -> << [op |-> "wrongkey", d |-> Hx!FromBytes(Scalar("sm2", OtherCls(c.papi)))],
+                                              [op |-> "parse", allowed |-> <<"Err">>], [op |-> "rightagain"] >>
     [] s.t = "injected"       -> << [op |-> "inject", cls |-> s.cls, d |-> Hx!FromBytes(Scalar(k.kind, s.cls)), neg |-> (s.cls = "negative")] >>
     [] s.t = "reencoded"      -> << [op |-> "reencode", form |-> "stripzeros"] >>
     [] OTHER                  -> << >>
@@ -295,6 +299,7 @@ Next ==
   \/ (Fresh /\ "rt" \in Parts /\ TakesUnwrapKey(cont) /\ cont \in RtConts(key) /\ UseWrongUnwrapKey)
   \/ (Fresh /\ "inject" \in Parts /\ cont \in InjectConts(key) /\ \E bad \in BadCls(key.kind) : InjectScalar(bad))
   \/ (Fresh /\ "inject" \in Parts /\ key.kind \in {"sm2", "ecdsa", "ecdsa384", "ecdsa521"} /\ Reencode)
+  \/ RightSecretAfterwards
   \/ (status.t # "none" /\ outcome = "-" /\ \E o \in Outcomes : DoParse(o))
 Spec == Init /\ [][Next]_kcvars
 =============================================================================
